@@ -13,7 +13,7 @@ use std::sync::Arc;
 pub type Result<T> = std::result::Result<T, Error>;
 pub struct BreakerStrategy { pub c: u8 }
 /// the fields of flow::Rule this function reads; everything else is behind `rule_eq` / `stat_reusable`
-pub struct Rule { pub resource: String, pub strategy: BreakerStrategy, pub rest: u64 }
+pub struct Rule { pub id: String, pub resource: String, pub strategy: BreakerStrategy, pub rest: u64 }
 #[verifier::external_body] pub struct CounterLeapArray { _p: u8 }
 #[verifier::external_body] pub struct Breaker { _p: u8 }
 #[verifier::external_body] pub struct Generator { _p: u8 }
@@ -204,7 +204,7 @@ pub exec static GEN_FUN_MAP: GenMapLock ensures true { GenMapLock { p: 0 } }
 //@ invariant[0]: old_res_cbs@.len() < MAX
 //@ invariant[0]: (new_res_cbs@, old_res_cbs@) == run(res, rules_of_res@, idx as int, old(old_res_cbs)@)
 //@ decreases[0]: rules_of_res.len() - idx
-//@ proof-after `let (eq_idx, reuse_stat_idx)`: proof { l_eq_index(*rule, old_res_cbs@, 0); l_reuse_index(*rule, old_res_cbs@, 0, eq_index(*rule, old_res_cbs@, 0)); }
+//@ proof-after `calculate_reuse_index_for(rule, `: proof { l_eq_index(*rule, old_res_cbs@, 0); l_reuse_index(*rule, old_res_cbs@, 0, eq_index(*rule, old_res_cbs@, 0)); }
 //@end
 
 proof fn verif_canary() { assert(false); }
